@@ -15,6 +15,7 @@ CONSTANTS NV,        \* propositional variables 1..NV (the library's constant va
           Pool,      \* sequence of clauses (sequences of non-zero integers: v / -v) that new_clause may be given
           MaxLevel,
           MaxLearnt, \* bound on the number of recorded no-goods (state constraint)
+          CheckPool, \* the sequences of literals check() may be given
           LoseWatchBug \* TRUE: clause::propagate returns on a conflict before re-registering its watch (a seeded mistake)
 
 Vars == 1..NV
@@ -208,6 +209,26 @@ Assume(p) ==
              IN /\ Commit(r.S) /\ dead' = ~r.ok /\ lastOp' = <<"assume", p, r.ok, r.learnt>>
   /\ UNCHANGED <<orig, given>>
 
+\* sat_core::check(lits): the literals are assumed one after the other; a failure (the literal is false, a conflict at root
+\* level, or a conflict whose backjump left the level just opened) ends it; in every case the levels above the one it
+\* was called at are popped before it returns (a backjump may have gone below that level: those decisions are lost)
+RECURSIVE CheckLoop(_, _, _, _, _)
+CheckLoop(S, ls, i, rl, learnt) ==
+  IF i > Len(ls) THEN [ok |-> TRUE, S |-> PopTo(S, rl), learnt |-> learnt, dead |-> FALSE]
+  ELSE LET dl == DL(S)
+           S1 == [S EXCEPT !.lim = Append(@, Len(S.tr)), !.dec = Append(@, ls[i])]
+           e == Enqueue(S1, ls[i], 0)
+       IN IF ~e.ok THEN [ok |-> FALSE, S |-> PopTo(e.S, rl), learnt |-> learnt, dead |-> FALSE]
+          ELSE LET r == Prop(e.S, <<>>)
+               IN IF ~r.ok THEN [ok |-> FALSE, S |-> r.S, learnt |-> learnt \o r.learnt, dead |-> TRUE]
+                  ELSE IF DL(r.S) <= dl THEN [ok |-> FALSE, S |-> PopTo(r.S, rl), learnt |-> learnt \o r.learnt, dead |-> FALSE]
+                  ELSE CheckLoop(r.S, ls, i + 1, rl, learnt \o r.learnt)
+Check(k) ==
+  /\ Usable /\ q = <<>> /\ given = DOMAIN Pool /\ lastOp[1] # "new_clause"
+  /\ LET r == CheckLoop(St, CheckPool[k], 1, DL(St), <<>>)
+     IN /\ Commit(r.S) /\ dead' = r.dead /\ lastOp' = <<"check", CheckPool[k], r.ok, r.learnt>>
+  /\ UNCHANGED <<orig, given>>
+
 Pop ==
   /\ ~dead /\ lim # <<>> /\ q = <<>>
   /\ Commit(PopLevel(St))
@@ -247,6 +268,7 @@ Next ==
   \/ \E k \in DOMAIN Pool : NewClause(k)
   \/ Propagate \/ Pop \/ NextSol \/ SimplifyDb
   \/ \E p \in Lits : Assume(p)
+  \/ \E k \in DOMAIN CheckPool : Check(k)
 Spec == Init /\ [][Next]_vars
 
 Bounded == Len(cl) <= Cardinality(DOMAIN Pool) + MaxLearnt
